@@ -93,8 +93,7 @@ def judge(ctx, tags, src, base, r, M, rep=None):
         rep = Reporter(ctx, None)
     if base is not None and base is not r and r.status is not None and not r.intercepted:
         if luaquota.ctx_intercept(r.body, base.body):
-            rep.contaminated.add(tags)
-            ctx.violation("callcontext-intercepts-kill:memory", "an inner runtime.callcontext (which has no memory limit of its own) "
+            ctx.violation("kill-intercepted-by-callcontext:memory:" + key_in, "an inner runtime.callcontext (which has no memory limit of its own) "
                           "was killed by the memory limit inherited from the enclosing context, reported status 'killed' to the Lua "
                           "code of that enclosing context, which went on running (program %s, limit %d)" % (tags, M), replay)
             return None
@@ -105,8 +104,7 @@ def judge(ctx, tags, src, base, r, M, rep=None):
         ctx.violation("runner-%s:memory:%s" % (r.cls, key_in), "the interpreter ended with %s (%s)" % (r.cls, r.ret), replay)
         return None
     if r.intercepted:
-        rep.contaminated.add(tags)
-        ctx.violation("pcall-intercepts-kill:memory", "Lua code received the memory kill as an ordinary pcall/xpcall error and went on "
+        ctx.violation("kill-intercepted:memory:" + key_in, "Lua code received the memory kill as an ordinary pcall/xpcall error and went on "
                       "running in the limited context (program %s, limit %d)" % (tags, M), replay)
         return None
     if r.status is None:
@@ -145,8 +143,10 @@ def lua_leg(ctx, binpath, nprog):
                 "whole process died" if r.cls == "crash" else "panic escaped the Lua call", name), replay)
         elif r.cls != "ok":
             ctx.violation("runner-%s:memory:%s" % (r.cls, name), "probe ended with %s (%s)" % (r.cls, r.ret), replay)
+        elif name == "probe:pcall-rep" and r.status != "killed":
+            ctx.violation("probe-not-killed:memory:" + name, "expected status killed, got %s" % r.status, replay)
         elif r.intercepted:
-            ctx.violation("pcall-intercepts-kill:memory", "Lua code received the memory kill as an ordinary pcall error and went "
+            ctx.violation("kill-intercepted:memory:" + name, "Lua code received the memory kill as an ordinary pcall error and went "
                           "on running in the limited context (%s, limit %d); final status %s" % (name, lim, r.status), replay)
     batch = []
     for pid, tags, src in progs:
@@ -218,12 +218,10 @@ def lua_leg(ctx, binpath, nprog):
         thr_hi = min(oks) if oks else None
         for M in Ms:
             near = thr_hi is not None and (abs(M - thr_hi) <= 2 or abs(M - thr_lo) <= 2)
-            inside = oc[M] and any(t.startswith(("pcall", "coro", "xpcall", "close", "p", "ctx")) for t in tags.split("+"))
+            inside = oc[M] and any(t.startswith(("pcall", "coro", "xpcall", "close", "p", "ctx", "W:")) for t in tags.split("+"))
             ctx.case("%s|%d" % (tags, M), near or inside)
             ctx.count("lua:" + ("killed" if oc[M] else "done"))
-        if tags in rep.contaminated:
-            ctx.count("lua:monotonicity-skipped(intercepted)")
-        elif ks and oks and max(ks) > min(oks):
+        if ks and oks and max(ks) > min(oks):
             bad_ok = min(oks)
             bad_k = min(M for M in ks if M > bad_ok)
             rep.report(tags, "not-monotone:memory:%s:%d<%d" % (tags, bad_ok, bad_k),
@@ -260,7 +258,7 @@ def amplify_leg(ctx, binpath, thorough):
                 name, N, M, r.cls, r.ret), replay)
             continue
         if r.intercepted:
-            ctx.violation("pcall-intercepts-kill:memory", "intercepted in amplification template " + name, replay)
+            ctx.violation("kill-intercepted:memory:amplify:" + name, "intercepted in amplification template " + name, replay)
             continue
         if r.umem is not None and r.umem >= M:
             ctx.violation("used-reaches-kill:memory:amplify:" + name, "ctx.used.memory=%d with kill.memory=%d" % (r.umem, M), replay)
